@@ -178,11 +178,13 @@ impl Value {
             Self::UnaryOp(op, v) => {
                 let value = v.do_evaluate(scope, true)?;
                 match (op, value) {
-                    (Operator::Not, css::Value::Numeric(v, _)) => {
-                        (v.value == 0.into()).into()
+                    // A map operand is kept as is, since conditions like
+                    // `supports(not (a: b))` are parsed as values.
+                    (Operator::Not, v)
+                        if !matches!(v, css::Value::Map(_)) =>
+                    {
+                        (!v.is_true()).into()
                     }
-                    (Operator::Not, css::Value::True) => css::Value::False,
-                    (Operator::Not, css::Value::False) => css::Value::True,
                     (Operator::Minus, css::Value::Numeric(v, _)) => {
                         css::Value::Numeric(-&v, true)
                     }
